@@ -62,6 +62,11 @@ CHECKS = {
   note="`bodyPasses` abstracts the exit status of the real `cargo test` on the per-test project (rustc/cargo/libtest trusted). Tie + oracle: generated test files with ground truth run by the real `incan test` (child process, real cargo test, shared target dir), quick: 5 scenarios / 17 executed tests. Fixtures, parametrize and async tests are outside the model.",
   technique="Lean 4 proof (list induction over the runner loop) + correspondence with the real runner + ground-truth oracle",
   ref="C16"),
+ "C17": dict(
+  text="Lean 4 theorems about the model of the newtype rewrite (select_newtype_checked_ctor, the `T(x)` call rewrite, the current_impl_type exemption) and a run-time semantics in which a hook is a partial function: `construction_validated_partial` — by structural induction over expressions of any shape and depth, every T value a lowered expression can produce outside T's own methods (inside lists, tuples, fields, Option/Result payloads, nested constructions) came out of T's hook; `rejected_argument_stops` — with a rejected argument the construction stops with the validation failure naming type and hook; failures propagate; the exemption is exactly `inside T's own methods`; the selected hook is always a declared static well-shaped method, a well-shaped from_underlying always wins, a single from_* is selected. The full statement is false (`alias_bypasses`, kernel-checked witness: a type name used as a function value) — recorded finding, replayed on the compiled program.",
+  note="Partial: sites of the shape T(x); hooks are deterministic partial functions; nominal typing of the checker is tied by the oracle only (model: name equality). Tie: 180+ generated programs per run compiled with rustc and executed; outcome (printed value or panic text) compared with the model.",
+  technique="Lean 4 proof (structural induction with a value invariant; selection lemmas; counter-example witness) + compiled-program correspondence + hook-enforcement oracle",
+  ref="C17"),
  "C18": dict(
   text="Lean 4 theorem `converges`: for every history of didOpen/didChange/didClose over any number of documents and every interleaving of the handlers' store steps (each handler starts in arrival order, stores at any later time), after quiescence the stored text of each document is that of the last notification sent for it, and nothing after a close — proved by an invariant over schedule prefixes for the ticket protocol the server uses after the fix. The pre-fix protocol is kept in the model with kernel-checked counter-examples (stale overwrite, close undone, broken text not stored).",
   note="Assumes the framework first-polls handlers in arrival order (tower-lsp buffer_unordered). Tie: the real IncanLanguageServer is driven as a tower Service, handler futures polled by hand in seeded schedules with the client channel drained on demand; its own receive/store event order (cfg(incan_verif) hook) is replayed on the model, which must accept every real store and predict the final hover. Real threads are not exercised.",
